@@ -21,15 +21,15 @@ None == "none"
 Inf  == 1000000000         \* energy of accounts that are not tracked (rich accounts)
 
 VARIABLES cfg,      \* [limit, lpa, lifetime, identity]  pool options + which promote rule (never changes in a run)
-          txs,      \* hash -> [id, org, dlg, cost, prio, prio0, ref, exp, dep, typed]     what is known about signed txs
-                    \*         (prio: priority fee from GALACTICA on, prio0: before)
+          txs,      \* hash -> [id, org, dlg, cost, cap, prio, prio0, ref, exp, dep, typed]     what is known about signed txs
+                    \*         (cap: the most it pays per gas; prio: priority fee from GALACTICA on, prio0: before)
           objs,     \* object id -> [h, src, t, flag, priced, cost, pay, prio]
           byHash,   \* hash -> object id          (mapByHash: THE pool)
           byID,     \* tx id -> object id         (mapByID)
           quota,    \* account -> count           (entries are deleted when they reach 0)
           cost,     \* account -> pending cost    (entries are deleted when they reach 0)
           pub,      \* published executables: sequence of [h, prio]
-          head,     \* [num, incl, rev, energy, gala, synced]  facts about the best block
+          head,     \* [num, incl, rev, energy, basefee, gala, synced]  facts about the best block (basefee: of the NEXT block)
           blocked,  \* fetched blocklist
           tick,     \* housekeeping locals: [seen (head num at the last tick), added (addedAfterWash > 0)]
           w,        \* the in-flight wash
@@ -83,6 +83,7 @@ Evaluate(tx, hd) ==
   ELSE IF tx.dep # None /\ tx.dep \notin hd.incl THEN [r |-> "nonexec"]
   ELSE IF tx.dep # None /\ tx.dep \in hd.rev THEN Drop("depreverted")
   ELSE IF tx.ref > n THEN [r |-> "nonexec"]
+  ELSE IF LexLess(tx.cap, hd.basefee) THEN Drop("unpayable")       \* BuyGas: gas price is less than block base fee
   ELSE IF Energy(hd, Payer(tx)) < tx.cost THEN Drop("unpayable")   \* BuyGas: insufficient energy
   ELSE [r |-> "exec"]
 
@@ -369,7 +370,8 @@ Justified(d) ==
     [] d.why = "settled"      -> tx.id \in d.hd.incl
     [] d.why = "depreverted"  -> tx.dep \in d.hd.rev
     [] d.why = "inadmissible" -> tx.ref > d.hd.num + 31 \/ (tx.typed /\ ~d.hd.gala)
-    [] d.why = "unpayable"    -> Energy(d.hd, Payer(tx)) < tx.cost \/ (d.a > d.b /\ d.b = Energy(d.hd, Payer(tx)))
+    [] d.why = "unpayable"    -> \/ Energy(d.hd, Payer(tx)) < tx.cost \/ LexLess(tx.cap, d.hd.basefee)
+                                 \/ (d.a > d.b /\ d.b = Energy(d.hd, Payer(tx)))
     [] d.why = "blocked"      -> IsBlocked(tx)
     [] d.why = "outlived"     -> d.src # "local" /\ Lifetime # "never"
     [] d.why = "displaced"    -> d.src # "local" /\ (d.a > Limit \/ d.a + d.b > Limit \/ d.b > nl)
